@@ -183,7 +183,7 @@ pub fn gen_value(t: &mut Tape, ty: Ty, json: bool, hazard: bool) -> V {
     match ty {
         Ty::Int => {
             if hazard && t.chance(1, 4) {
-                V::Int(*t.pick(&[i64::MAX, i64::MIN, i64::MAX - 1, i64::MIN + 1, 1 << 62, -(1 << 62), 4294967296, 3037000500]))
+                V::Int(*t.pick(&[i64::MAX, i64::MIN, i64::MAX - 1, i64::MIN + 1, 1 << 62, -(1 << 62), 4294967296, 3037000500, 3000000000, 2147483648, -2147483648, 3037000499]))
             } else {
                 V::Int(match t.draw(4) {
                     0 => t.range(-3, 3),
